@@ -44,7 +44,7 @@ ASSUMPTIONS = [
 ]
 SETTINGS: Dict[str, Dict[str, Any]] = {
     "quick": {"cases": 2400, "cli_cases": 32, "budget_s": 60, "minimums": {"corpus_runs": 100, "fractions": 15000, "nontrivial": 500, "canary_fractions": 1500, "monitored_calls": 100000, "cli_fractions": 150, "cli_tax_report_rows": 150}},
-    "thorough": {"cases": 100000, "cli_cases": 480, "budget_s": 360, "minimums": {"corpus_runs": 100, "fractions": 600000, "nontrivial": 20000, "canary_fractions": 50000, "monitored_calls": 5000000, "cli_fractions": 2500, "cli_tax_report_rows": 2500}},
+    "thorough": {"cases": 100000, "cli_cases": 480, "budget_s": 360, "minimums": {"corpus_runs": 100, "fractions": 360000, "nontrivial": 12000, "canary_fractions": 30000, "monitored_calls": 3000000, "cli_fractions": 1500, "cli_tax_report_rows": 1500}},
 }
 
 PROFILES = [
